@@ -32,6 +32,7 @@ Record peer_state := {
   t_queue : list (uuid * tyid * value);
   t_ctok : list (uuid * tyid);
   t_htok : list uuid;
+  t_ptok : gmap uuid uuid;         (* pushed_parent_from_network: links applied from the network, not yet seen by the tracking system *)
   t_mat : bool; t_mesh : bool; t_audio : bool;
   t_promo : bool;
   (* assets: content digests by uuid, unread asset events per class reader *)
@@ -65,7 +66,7 @@ Record peer_state := {
 
 #[export] Instance eta_peer_state : Settable _ := settable! Build_peer_state
   <p_id; p_sync_types; p_registry; p_order; p_ents; p_reserved; p_next_ent; p_tick; p_last_run; p_cond_bit;
-   t_u2e; t_e2u; t_queue; t_ctok; t_htok; t_mat; t_mesh; t_audio; t_promo;
+   t_u2e; t_e2u; t_queue; t_ctok; t_htok; t_ptok; t_mat; t_mesh; t_audio; t_promo;
    a_store; a_events; a_ready; h_cache; d_pending; n_promote_events; p_app_cmds;
    n_setup; n_srv_transport; n_cli_transport; n_clients; n_srv_events; n_kicked; n_status; n_sticky_disconnect; n_inbox;
    s_server; s_client; s_next_server; s_next_client; p_cmdq; p_out; p_finished_events; p_panic>.
@@ -78,7 +79,7 @@ Record peer_state := {
 Definition init_peer (id : peer) (sync_types registry : list tyid) (order : list sysid) : peer_state :=
   {| p_id := id; p_sync_types := sync_types; p_registry := registry; p_order := order;
      p_ents := ∅; p_reserved := []; p_next_ent := 4294967296; p_tick := 1; p_last_run := ∅; p_cond_bit := ∅;
-     t_u2e := ∅; t_e2u := ∅; t_queue := []; t_ctok := []; t_htok := [];
+     t_u2e := ∅; t_e2u := ∅; t_queue := []; t_ctok := []; t_htok := []; t_ptok := ∅;
      t_mat := false; t_mesh := false; t_audio := false; t_promo := false;
      a_store := {[ akey KMaterial 0 := 500 ]}; a_events := []; a_ready := []; h_cache := ∅; d_pending := []; n_promote_events := []; p_app_cmds := [];
      n_setup := false; n_srv_transport := None; n_cli_transport := None; n_clients := []; n_srv_events := []; n_kicked := [];
@@ -93,6 +94,9 @@ Definition pair_eqb (a b : uuid * tyid) : bool := (a.1 =? b.1) && (a.2 =? b.2).
 Definition mem_pair (x : uuid * tyid) (l : list (uuid * tyid)) : bool := existsb (pair_eqb x) l.
 Definition remove_pair (x : uuid * tyid) (l : list (uuid * tyid)) := filter (fun y => negb (pair_eqb x y)) l.
 Definition removeN (x : N) (l : list N) : list N := filter (fun y => negb (x =? y)) l.
+(* one occurrence less (the debounce counter of pushed_handles_from_network) *)
+Fixpoint remove1N (x : N) (l : list N) : list N :=
+  match l with [] => [] | y :: l => if x =? y then l else y :: remove1N x l end.
 
 Definition last_run (pr : peer_state) (k : N) : tick := default 0 (p_last_run pr !! k).
 
@@ -279,10 +283,9 @@ Definition build_full_sync (pr : peer_state) : peer_state * list msg :=
   let '(pr, ma) := serve_all pr AAudio in
   (pr, m1 ++ m2 ++ mi ++ mm ++ me ++ ma).
 
-(* SyncAssetTransfer::request: nothing happens if this peer's *mesh* cache holds the id *)
+(* SyncAssetTransfer::request: the download is queued *)
 Definition request_asset (pr : peer_state) (c : aclass) (a : uuid) (owner : peer) : peer_state :=
-  if is_some (h_cache pr !! akey (KClass AMesh) a) then pr
-  else pr <| d_pending := d_pending pr ++ [(c, a, owner)] |>.
+  pr <| d_pending := d_pending pr ++ [(c, a, owner)] |>.
 
 Definition insert_asset (pr : peer_state) (k : akind) (a : uuid) (v : N) : peer_state :=
   pr <| a_store := <[akey k a := v]> (a_store pr) |> <| a_events := a_events pr ++ [(k, a)] |>.
@@ -314,18 +317,20 @@ Definition apply_cmd (pr : peer_state) (c : cmd) : peer_state :=
       | Some c, Some p =>
           if negb (alive pr p) || negb (alive pr c) then pr             (* get_entity(p) / get_entity_mut(c): None => return *)
           else
-            let pr := if parent_differs pr c p then set_parent_twice pr c p else pr in
+            let pr := if parent_differs pr c p
+                      then (set_parent_twice pr c p) <| t_ptok ::= <[cu := pu]> |>   (* pushed_parent_from_network.insert *)
+                      else pr in
             match p_panic pr with
             | Some _ => pr
             | None => relay_except pr from (MParented cu pu)
             end
       | _, _ => pr
       end
-  | CSetParentCli c p =>
+  | CSetParentCli c p cu pu =>
       if negb (alive pr p) || negb (alive pr c) then pr                     (* get_entity(p) / get_entity_mut(c): None => return *)
-      else if parent_differs pr c p then set_parent_twice pr c p else pr
+      else if parent_differs pr c p then (set_parent_twice pr c p) <| t_ptok ::= <[cu := pu]> |> else pr
   | CApplyMaterial from a v =>
-      let pr := pr <| t_htok := a :: removeN a (t_htok pr) |> in
+      let pr := pr <| t_htok := a :: t_htok pr |> in
       let pr := insert_asset pr KMaterial a v in
       match from with
       | Some c => relay_except pr c (MMaterial a v)
@@ -414,7 +419,10 @@ Definition entity_parented_server (pr : peer_state) (last : tick) : peer_state :
            match parent_changed last en with
            | Some p =>
                match t_e2u pr !! e, t_e2u pr !! p with
-               | Some u, Some pu => broadcast pr (MParented u pu)
+               | Some u, Some pu =>
+                   (* skip_network_parent_change: the record is consumed; a link equal to it is not announced *)
+                   let pr' := pr <| t_ptok ::= delete u |> in
+                   if bool_decide (t_ptok pr !! u = Some pu) then pr' else broadcast pr' (MParented u pu)
                | _, _ => pr
                end
            | None => pr
@@ -427,7 +435,9 @@ Definition entity_parented_client (pr : peer_state) (last : tick) : peer_state :
                match p_ents pr !! p with
                | Some pen =>
                    match en_sync pen, en_children pen with
-                   | Some pu, _ :: _ => send_up pr (MParented u pu)
+                   | Some pu, _ :: _ =>
+                       let pr' := pr <| t_ptok ::= delete u |> in
+                       if bool_decide (t_ptok pr !! u = Some pu) then pr' else send_up pr' (MParented u pu)
                    | _, _ => pr
                    end
                | None => pr
@@ -462,7 +472,7 @@ Definition react_on_changed_assets (server : bool) (k : akind) (pr : peer_state)
            match a_store pr !! akey k a with
            | None => pr
            | Some v =>
-               if memN a (t_htok pr) then pr <| t_htok := removeN a (t_htok pr) |>
+               if memN a (t_htok pr) then pr <| t_htok := remove1N a (t_htok pr) |>
                else
                  match k with
                  | KMaterial => if server then broadcast pr (MMaterial a v) else send_up pr (MMaterial a v)
@@ -478,7 +488,7 @@ Definition react_on_changed_assets (server : bool) (k : akind) (pr : peer_state)
 Definition process_assets (pr : peer_state) (c : aclass) (done : list (aclass * uuid * N)) : peer_state :=
   foldl (fun pr '(c', a, v) =>
            if kind_num (KClass c') =? kind_num (KClass c) then
-             let pr := pr <| t_htok := a :: removeN a (t_htok pr) |> in
+             let pr := pr <| t_htok := a :: t_htok pr |> in
              let pr := pr <| d_pending := filter (fun x : aclass * uuid * peer => negb ((kind_num (KClass x.1.1) =? kind_num (KClass c)) && (x.1.2 =? a))) (d_pending pr) |> in
              insert_asset pr (KClass c) a v
            else pr) pr done.
@@ -552,7 +562,7 @@ Definition client_received (pr : peer_state) (k : N) (m : msg) : peer_state :=
         pr <| t_u2e := <[u := e]> (t_u2e pr) |> <| t_e2u := <[e := u]> (t_e2u pr) |>
   | MParented c p =>
       match t_u2e pr !! c, t_u2e pr !! p with
-      | Some ce, Some pe => push_cmd pr k (CSetParentCli ce pe)
+      | Some ce, Some pe => push_cmd pr k (CSetParentCli ce pe c p)
       | _, _ => pr
       end
   | MDelete u =>
